@@ -648,6 +648,12 @@ class ProgGen:
                 self.features.add("looped-fill")
                 site = self.newsite()
                 var = f"v{site}"
+                outer_simple = [l for l in loops if isinstance(l, tuple)]
+                if outer_simple and rng.random() < 0.4:
+                    # the loop that produces the fills re-uses the variable name of a loop AROUND the component tag:
+                    # inside the fill (and for a pass-through {% slot name=var %}) the nearer loop wins
+                    var = rng.choice(outer_simple)[0]
+                    self.features.add("looped-fill-shadows-enclosing-loop")
                 items = rng.choice(["ab", "a", "bc", "abc", "c"])
                 inner = self.gen_sites(budget, depth + 1, in_comp, allowed, loops, targets, used=used, site_loop=(var, items))
                 sites.append(["for", var, items, site, inner])
